@@ -152,7 +152,7 @@ where
                 break;
             }
             extra_left -= 1;
-        } else if t.frames >= opts.max_frames || t.delivered >= opts.max_bytes {
+        } else if t.frames >= opts.max_frames || t.delivered >= opts.max_bytes || t.steps.len() >= opts.max_frames.saturating_mul(2) {
             t.capped = true;
             break;
         }
@@ -188,10 +188,6 @@ where
             Ok(Poll::Pending) => {
                 t.pendings += 1;
                 if cw.0.load(Ordering::SeqCst) == wakes_before {
-                    t.stalled = true;
-                    stop = true;
-                }
-                if t.pendings > 100_000 {
                     t.stalled = true;
                     stop = true;
                 }
@@ -280,6 +276,10 @@ pub fn check_terminated_stays<E: Clone + std::fmt::Debug>(t: &Trace<E>, what: &s
 pub fn check_eos_truthful<E: Clone + std::fmt::Debug>(t: &Trace<E>, what: &str) -> Check {
     let mut eos_at: Option<usize> = None;
     for (i, s) in t.steps.iter().chain(t.extra.iter()).enumerate() {
+        // `s.eos` was sampled immediately before poll i: that poll itself is already bound by it.
+        if s.eos && eos_at.is_none() {
+            eos_at = Some(i);
+        }
         if let Some(j) = eos_at {
             match &s.ev {
                 Ev::Data(n) if *n > 0 => {
@@ -296,9 +296,6 @@ pub fn check_eos_truthful<E: Clone + std::fmt::Debug>(t: &Trace<E>, what: &str) 
                 }
                 _ => {}
             }
-        }
-        if s.eos && eos_at.is_none() {
-            eos_at = Some(i);
         }
     }
     Ok(())
